@@ -321,6 +321,80 @@ func c20TwoLoggers(n, entries, P int) Scenario {
 	return vsScenario(&VsSpec{Name: name, Body: body, Check: check, P: P})
 }
 
+// c20FirstUse: the very first calls on a fresh Logger come from several goroutines at
+// once, with schedules down to single memory accesses (whatever the logger sets up
+// lazily is set up under contention). Everything logged is there afterwards, in an
+// order consistent with each producer's own.
+func c20FirstUse(n, perProducer, P int) Scenario {
+	var final []int
+	var sent [][]int
+	name := fmt.Sprintf("first-use capacity=%d two producers x %d entries (access-level schedules)", n, perProducer)
+	body := func() {
+		vs.EnableHBFine()
+		final, sent = nil, [][]int{nil, nil}
+		l := go9p.NewLogger(n)
+		vs.Window(true)
+		for pi := 0; pi < 2; pi++ {
+			pi := pi
+			vs.Go("producer", func() {
+				for j := 0; j < perProducer; j++ {
+					id := pi*100 + j + 1
+					l.Log(c20Data(id), c20Owners[1+pi], 1)
+					sent[pi] = append(sent[pi], id)
+				}
+			})
+		}
+		vs.Idle()
+		vs.Window(false)
+		final = idsOf(l.Filter(nil, 0))
+	}
+	check := stdCheck("C20", func(x *vs.Exec) *Viol {
+		for _, g := range x.Parked {
+			if g.Site == "producer" {
+				return &Viol{Sig: "C20/blocked/producer", Msg: fmt.Sprintf("a producer is blocked for ever in %s (parked %v)", g.Op, x.Parked)}
+			}
+		}
+		total := 2 * perProducer
+		want := total
+		if want > n {
+			want = n
+		}
+		seen := map[int]int{}
+		for _, id := range final {
+			seen[id]++
+		}
+		bad := len(final) != want
+		for _, c := range seen {
+			if c != 1 {
+				bad = true
+			}
+		}
+		// per-producer order among what is returned
+		last := map[int]int{}
+		for _, id := range final {
+			p := id / 100
+			if id < last[p] {
+				bad = true
+			}
+			last[p] = id
+		}
+		if total <= n {
+			for pi := range sent {
+				for _, id := range sent[pi] {
+					if seen[id] != 1 {
+						bad = true
+					}
+				}
+			}
+		}
+		if bad {
+			return &Viol{Sig: "C20/first-use/entries-lost-duplicated-or-reordered", Msg: fmt.Sprintf("two goroutines logged %v and %v into a fresh logger of capacity %d; once logging had stopped Filter(nil, 0) returned %v", sent[0], sent[1], n, final)}
+		}
+		return nil
+	}, nil)
+	return vsScenario(&VsSpec{Name: name, Body: body, Check: check, P: P})
+}
+
 func c20Scenarios(tier string) []Scenario {
 	var out []Scenario
 	caps := []int{1, 2, 3, 4}
@@ -355,6 +429,7 @@ func c20Scenarios(tier string) []Scenario {
 		}
 	}
 	out = append(out, c20TwoLoggers(2, 2, 1), c20TwoLoggers(3, 5, 1))
+	out = append(out, c20FirstUse(4, 1, 2), c20FirstUse(8, 2, 2))
 	// capacities beyond any small ring: around powers of two and in between
 	for _, n := range []int{65, 127, 128, 129, 200, 256, 257} {
 		out = append(out, c20SequentialFull(n, 2*n+n/2+3, [3]int{0, 1, 2}, 1))
